@@ -1,0 +1,64 @@
+//! Verification hook, only compiled with the private `_verif` feature.
+//!
+//! Exposes a textual digest of the interface-level state that the public API does not
+//! show (neighbor cache, routes, SLAAC, multicast report state, egress fragmenter,
+//! reassembly slots, counters, PRNG). It is read-only and purely additive; external
+//! model-checking harnesses use it to recognise states they have already explored.
+
+use super::*;
+use core::fmt::Write;
+
+impl Interface {
+    /// Return a canonical textual image of all interface-level state.
+    pub fn verif_digest(&self) -> alloc::string::String {
+        let mut s = alloc::string::String::new();
+        let i = &self.inner;
+        let _ = write!(
+            s,
+            "hw={:?} addrs={:?} any_ip={} routes={:?} neigh={:?} seq={} pan={:?} ipv4_id={} tag={} ctx={:?} rand={:?}",
+            i.hardware_addr,
+            i.ip_addrs,
+            i.any_ip,
+            i.routes,
+            i.neighbor_cache,
+            i.sequence_no,
+            i.pan_id,
+            i.ipv4_id,
+            i.tag,
+            i.sixlowpan_address_context,
+            i.rand,
+        );
+        let _ = write!(
+            s,
+            " slaac_enabled={} slaac={:?} slaac_updated={:?} mcast={}",
+            i.slaac_enabled,
+            i.slaac,
+            i.slaac_updated,
+            i.multicast.verif_digest(),
+        );
+        let f = &self.fragmenter;
+        let _ = write!(
+            s,
+            " frag[len={} sent={} v4(repr={:?} hw={:?} off={} id={}) 6lo(size={} tag={} off={} fragn={} dst={:?} src={:?}) buf={:?}]",
+            f.packet_len,
+            f.sent_bytes,
+            f.ipv4.repr,
+            f.ipv4.dst_hardware_addr,
+            f.ipv4.frag_offset,
+            f.ipv4.ident,
+            f.sixlowpan.datagram_size,
+            f.sixlowpan.datagram_tag,
+            f.sixlowpan.datagram_offset,
+            f.sixlowpan.fragn_size,
+            f.sixlowpan.ll_dst_addr,
+            f.sixlowpan.ll_src_addr,
+            &f.buffer[..f.packet_len.min(f.buffer.len())],
+        );
+        let _ = write!(
+            s,
+            " reasm[timeout={:?} {:?}]",
+            self.fragments.reassembly_timeout, self.fragments.assembler,
+        );
+        s
+    }
+}
